@@ -898,6 +898,16 @@ void *__wrap_malloc(size_t n)
 	return malloc(n);
 }
 
+unsigned sim_arg_evals;
+
+void sim_once_check(unsigned nargs, const char *call)
+{
+	unsigned n = sim_arg_evals;
+	sim_arg_evals = 0;
+	if (n != nargs)
+		sim_fail(NULL, "ARG_EVALUATION", "%u argument expression(s) were evaluated %u time(s) in total by: %.120s", nargs, n, call);
+}
+
 void sim_alloc_fail_next(int nth)
 {
 	alloc_fail_countdown = nth;
